@@ -200,16 +200,16 @@ func cmdCheck(args []string) {
 // ---- history checks ----
 
 type histPlan struct {
-	level      string
-	quickRuns  int
-	thorRuns   int
-	chunk      int
+	level                   string
+	quickRuns               int
+	thorRuns                int
+	chunk                   int
 	quickBudget, thorBudget time.Duration
-	builds     []string // "default", "purego"
-	instrumented bool   // needs the in-package accessor (overlay build)
-	required   []string // counters that must be non-zero (else exit 2)
-	rule       string
-	assumptions []string
+	builds                  []string // "default", "purego"
+	instrumented            bool     // needs the in-package accessor (overlay build)
+	required                []string // counters that must be non-zero (else exit 2)
+	rule                    string
+	assumptions             []string
 }
 
 var commonAssumptions = []string{
@@ -227,13 +227,13 @@ var histPlans = map[string]*histPlan{
 			"probe/C01/Point.VarTimeDoubleScalarBaseMult/recv=aliased"},
 		rule: "one evaluation = one seeded history (8-45 steps over a pool of reused, aliasable Point/Scalar/Element slots, >= 40% scalar-multiplication steps, per-run swarm configuration); non-trivial = at least one scalar-multiplication step whose result was compared with the big.Int reference sum; distinct = distinct value-level event-log hash of the whole run"},
 	"C05": {level: "exploration", quickRuns: 16000, thorRuns: 2000000, chunk: 100, quickBudget: 60 * time.Second, thorBudget: 20 * time.Minute,
-		builds: []string{"default"},
+		builds:   []string{"default"},
 		required: []string{"oracle/C05", "probe/C05/Z_ne_1", "probe/C05/accepted_noncanonical_input", "probe/C05/small_order_axis_point", "probe/C05/coordinate_limb_ge_2^51"},
-		rule: "one evaluation = one seeded history of point operations, imports with scaled coordinates and decodes (incl. non-canonical encodings); after every step every changed (30% of runs: every) initialised point slot is encoded and compared with the canonical encoding computed from its own raw coordinates, then decoded again; non-trivial = at least one slot encoding checked; distinct = distinct value-level event-log hash"},
+		rule:     "one evaluation = one seeded history of point operations, imports with scaled coordinates and decodes (incl. non-canonical encodings); after every step every changed (30% of runs: every) initialised point slot is encoded and compared with the canonical encoding computed from its own raw coordinates, then decoded again; non-trivial = at least one slot encoding checked; distinct = distinct value-level event-log hash"},
 	"C09": {level: "exploration", quickRuns: 40000, thorRuns: 4000000, chunk: 1000, quickBudget: 45 * time.Second, thorBudget: 15 * time.Minute,
-		builds: []string{"default", "purego"},
+		builds:   []string{"default", "purego"},
 		required: []string{"oracle/C09", "probe/elem_limb_ge_2^51", "probe/elem_value_ge_p_unreduced", "probe/elem_zero_with_nonzero_limbs", "probe/C09/invert_zero"},
-		rule: "one evaluation = one seeded history over 8-16 field.Element slots (all 20 Element operations; half of the runs biased to carry-free chains that maximise limbs), executed under the default (assembly) and the purego build; each of the nine C09 operations is compared with GF(p) arithmetic on the pre-state values, the 2^52 limb bound is checked on every written element; non-trivial = at least one of the nine operations checked; distinct = distinct value-level event-log hash"},
+		rule:     "one evaluation = one seeded history over 8-16 field.Element slots (all 20 Element operations; half of the runs biased to carry-free chains that maximise limbs), executed under the default (assembly) and the purego build; each of the nine C09 operations is compared with GF(p) arithmetic on the pre-state values, the 2^52 limb bound is checked on every written element; non-trivial = at least one of the nine operations checked; distinct = distinct value-level event-log hash"},
 	"C11": {level: "fault_enumeration", quickRuns: 800, thorRuns: 250000, chunk: 5, quickBudget: 60 * time.Second, thorBudget: 20 * time.Minute,
 		builds: []string{"default"},
 		required: []string{"oracle/C11diff", "oracle/C11diff/Scalar.MultiplyAdd", "oracle/C11diff/Point.MultiScalarMult", "oracle/C11diff/Point.VarTimeMultiScalarMult",
@@ -251,18 +251,18 @@ var histPlans = map[string]*histPlan{
 			"fault/reject/len/Point.SetBytes", "fault/reject/sem/Point.SetBytes", "fault/reject/sem/Scalar.SetCanonicalBytes", "fault/reject/sem/Point.SetExtendedCoordinates"},
 		rule: "one evaluation = one run: seeded history prefix, then (every second run) the enumeration seven fallible setters x {every wrong-length class, nil, semantically invalid input of each sub-kind} x receiver state {zero value, used}; remaining runs inject the same faults at random points of general histories; oracle is conditional on the error actually returned: nil result, receiver and all other slots bit-identical, input unchanged / on success the receiver is returned; non-trivial = at least one fallible setter call checked; distinct = distinct value-level event-log hash"},
 	"C15": {level: "fault_enumeration", quickRuns: 8000, thorRuns: 2000000, chunk: 50, quickBudget: 45 * time.Second, thorBudget: 15 * time.Minute,
-		builds: []string{"default"},
+		builds:   []string{"default"},
 		required: []string{"fault/misuse/uninit", "fault/misuse/len", "observed/misuse_panic", "probe/zero_value_receiver"},
-		rule: "one evaluation = one run: seeded history prefix, then (every second run) the enumeration of a zero-value Point at every Point-typed input position of every operation (every non-empty subset of positions for fixed-arity operations, every index for n=1..5 multi-scalar calls, receiver aliased to the bad operand in 30%), all unequal (len(scalars), len(points)) pairs <= 4, and the converse (zero-value pure receiver with valid inputs must not panic); non-trivial = at least one misuse or zero-receiver call checked; distinct = distinct value-level event-log hash"},
+		rule:     "one evaluation = one run: seeded history prefix, then (every second run) the enumeration of a zero-value Point at every Point-typed input position of every operation (every non-empty subset of positions for fixed-arity operations, every index for n=1..5 multi-scalar calls, receiver aliased to the bad operand in 30%), all unequal (len(scalars), len(points)) pairs <= 4, and the converse (zero-value pure receiver with valid inputs must not panic); non-trivial = at least one misuse or zero-receiver call checked; distinct = distinct value-level event-log hash"},
 	"C19": {level: "exploration", quickRuns: 12000, thorRuns: 1500000, chunk: 100, quickBudget: 60 * time.Second, thorBudget: 20 * time.Minute,
 		builds: []string{"default"}, instrumented: true,
 		required: []string{"fault/scribble/bytes", "fault/scribble/coords", "fault/scribble/ctor", "oracle/C19/probe", "oracle/C19/anchors", "oracle/C19/pkgstate"},
-		rule: "one evaluation = one seeded history in which every value handed back by the library (Bytes results, exported coordinates, constructor results) is kept in a ledger and later overwritten (raw memory and public mutators) at arbitrary points, and earlier calls are re-issued on bit-copies of their recorded operands; checked: caller slots, other returned values and every package-level variable of the library bit-identical across each mutation, returned values never overlap each other / caller slots, re-issued calls give identical values, constructors keep returning identity/base/zero; non-trivial = at least one ledger/mutation/probe check; distinct = distinct value-level event-log hash"},
+		rule:     "one evaluation = one seeded history in which every value handed back by the library (Bytes results, exported coordinates, constructor results) is kept in a ledger and later overwritten (raw memory and public mutators) at arbitrary points, and earlier calls are re-issued on bit-copies of their recorded operands; checked: caller slots, other returned values and every package-level variable of the library bit-identical across each mutation, returned values never overlap each other / caller slots, re-issued calls give identical values, constructors keep returning identity/base/zero; non-trivial = at least one ledger/mutation/probe check; distinct = distinct value-level event-log hash"},
 }
 
 type workerOut struct {
-	Prop       string            `json:"property"`
-	Build      string            `json:"build"`
+	Prop       string `json:"property"`
+	Build      string `json:"build"`
 	From, To   uint64
 	Done       uint64            `json:"done"`
 	Stats      *stats            `json:"stats"`
@@ -292,13 +292,13 @@ func (s *stats) merge(o *stats) {
 }
 
 type runResult struct {
-	Idx       uint64          `json:"run_index"`
-	Seed      uint64          `json:"seed"`
-	Steps     int             `json:"steps"`
-	ValueHash string          `json:"value_hash"`
-	Violation *violation      `json:"violation"`
-	Trace     json.RawMessage `json:"trace"`
-	Transcript []string       `json:"transcript"`
+	Idx        uint64          `json:"run_index"`
+	Seed       uint64          `json:"seed"`
+	Steps      int             `json:"steps"`
+	ValueHash  string          `json:"value_hash"`
+	Violation  *violation      `json:"violation"`
+	Trace      json.RawMessage `json:"trace"`
+	Transcript []string        `json:"transcript"`
 }
 
 type violation struct {
@@ -775,29 +775,29 @@ func writeEvidence(ca *checkArgs, plan *histPlan, b *batch, perBuild map[string]
 	}
 	wall := b.wall.Seconds()
 	cov := map[string]interface{}{
-		"evaluations":         b.runs,
-		"distinct_nontrivial": len(b.hashes),
-		"rule":                plan.rule,
-		"samples":             samples,
-		"steps_executed":      b.stats.C["steps"],
-		"runs_per_hour":       int(float64(b.runs) / wall * 3600),
-		"runs_per_build":      perBuild,
-		"simulated_time":      "the library has no clock; coverage is reported in logical steps (steps_executed)",
-		"fault_kinds_fired":   faults,
-		"operation_counts":    opsC,
-		"oracle_evaluations":  oracles,
-		"observed":            observed,
-		"reach_probes":        probes,
-		"max_limb_observed":   fmt.Sprintf("0x%x", b.stats.MaxLimb),
+		"evaluations":                         b.runs,
+		"distinct_nontrivial":                 len(b.hashes),
+		"rule":                                plan.rule,
+		"samples":                             samples,
+		"steps_executed":                      b.stats.C["steps"],
+		"runs_per_hour":                       int(float64(b.runs) / wall * 3600),
+		"runs_per_build":                      perBuild,
+		"simulated_time":                      "the library has no clock; coverage is reported in logical steps (steps_executed)",
+		"fault_kinds_fired":                   faults,
+		"operation_counts":                    opsC,
+		"oracle_evaluations":                  oracles,
+		"observed":                            observed,
+		"reach_probes":                        probes,
+		"max_limb_observed":                   fmt.Sprintf("0x%x", b.stats.MaxLimb),
 		"distinct_call_shapes_or_fault_sites": sitesSummary(b.stats.C),
-		"unreached_required":  unreached,
+		"unreached_required":                  unreached,
 		"runs_ended_early_by_violation_of_other_property": countPrefix(b.stats.C, "runs_ended_by_foreign_violation/"),
-		"known_findings_hit": len(b.known),
-		"exported_methods_not_in_operation_table": keysWithPrefix(b.stats.C, "unexercised_new_method/"),
-		"replay_files":       replayFiles,
+		"known_findings_hit":                              len(b.known),
+		"exported_methods_not_in_operation_table":         keysWithPrefix(b.stats.C, "unexercised_new_method/"),
+		"replay_files":                                    replayFiles,
 		"components": map[string]interface{}{
-			"real": []string{"the whole library (filippo.io/edwards25519 and field) built from /repo's working tree", "sync.Once"},
-			"stub": []string{},
+			"real":    []string{"the whole library (filippo.io/edwards25519 and field) built from /repo's working tree", "sync.Once"},
+			"stub":    []string{},
 			"harness": []string{"slot world, workload/fault generator, big.Int reference models (alpha, ref)"},
 		},
 		"exhaustive": false,
